@@ -19,6 +19,9 @@ BLK = [R + "umem_alloc.c", R + "ubuf_block_mem.c", R + "ubuf_mem_common.c"]
 VS = [E + "vsched.c"]
 HARNESSES = {
     "c07_lin": {"src": [H + "c07_lin.c"] + VS},
+    "c19_window": {"src": [H + "c19_window.c", R + "ubuf_mem_common.c", R + "ubuf_mem.c", R + "ubuf_pic_mem.c", R + "ubuf_pic_common.c", R + "ubuf_pic.c",
+                           R + "ubuf_sound_mem.c", R + "ubuf_sound_common.c", R + "ubuf_block_mem.c", R + "uref_pic_flow.c", R + "udict_inline.c",
+                           R + "uref_std.c", R + "umem_alloc.c"]},
     "c13_pump": {"src": [H + "c13_pump.c", E + "vmock_upump.c", R + "upump_common.c", "@REPO@/lib/upump-ev/upump_ev.c"], "libs": ["-lev"]},
     "c11_clock": {"src": [H + "c11_clock.c", R + "umem_alloc.c", R + "udict_inline.c", R + "uref_std.c"]},
     "c02_cow": {"src": [H + "c02_cow.c", R + "ubuf_block_mem.c", R + "ubuf_mem_common.c", R + "ubuf_mem.c", R + "ubuf_pic_mem.c", R + "ubuf_pic_common.c",
@@ -266,5 +269,24 @@ CHECKS["C13"] = {
     "rule": "BFS to closure, key = automaton variables + upump_common fields + back-end flags; non-trivial = states with a blocker held or the pump freed",
     "bounds": {"quick": "closure (no depth bound): 3 pump types x 5 callback behaviours on the mock back-end, 4 behaviours on real libev; <= 3 blockers",
                "thorough": "same (the space is finite and fully explored)"},
+    "assumptions": DEFAULT_ASSUME,
+}
+
+def _c19_jobs(tier):
+    q = tier == "quick"
+    n = 15
+    jobs = [("c19_window", ["--what", "sound", "--chain", 1])]
+    for sh in range(n):
+        jobs.append(("c19_window", ["--what", "pic", "--fmt-shard", "%d/%d" % (sh, n), "--sizes", 2 if q else 3, "--chain", 1 if q else 2]))
+    return jobs
+
+CHECKS["C19"] = {
+    "engine": "seqx", "design_ref": "DESIGN.md section 3 C19",
+    "technique": "exhaustive enumeration of every standard picture format x sizes x manager configurations x windows x resize chains (and sound) on the real ubuf_pic/ubuf_sound code over a counting allocator, against a linear-geometry model",
+    "level_text": "Every entry of uref_pic_flow_formats[] x sizes (1..2 or 3 granules) x 6 margin settings x alignments {0,16,64} x align offsets; on each buffer every window along each axis (offsets in [-S-g,S+g], sizes in {-1,0..S+g}, step 1) plus corner combinations, read and write mapping, resize chains, dup, split_fields; sound: 4 sample sizes x 1-3 planes x sizes x alignments x every window x resize. Accepted windows must sit at the address the plane geometry predicts inside the allocator's area, invalid ones must be refused, planes/lines must not overlap, resize must keep visible pixels at their address.",
+    "level_note": "Trusted: the geometry model (origin + line*stride + column*macropixel size) and the counting allocator. Outside: pictures larger than 3 granules, resize chains longer than 2.",
+    "jobs": {"quick": _c19_jobs("quick"), "thorough": _c19_jobs("thorough")},
+    "rule": "state = one (format, size, manager configuration[, resize chain]) buffer; transition = one window / resize request; non-trivial = buffers reached through a resize",
+    "bounds": {"quick": "all formats, sizes 1-2 granules, resize chains of length 1", "thorough": "sizes 1-3 granules, resize chains of length 2"},
     "assumptions": DEFAULT_ASSUME,
 }
